@@ -36,14 +36,15 @@ ASSUMPTIONS = [
     "outside the domain",
     "a preprocessor definition has no declared type: only its value is compared (booleans as 1/0)",
     "rust float128 -> f64 is the documented exception; JSON/YAML/TOML carry no declared widths",
-    "the Lean theorems about declaration lines assume a (renamed) name without '[' / blank (C, C++) or ':' (Rust) and a "
-    "rectangular value without empty levels",
+    "the Lean whole-file theorems (C, C++, Rust) assume a (renamed) name without '[' / blank (C, C++) or ':' (Rust), names, guard "
+    "and strings without newline, rectangular values without empty levels, `define` only for scalars whose float text is not an "
+    "integer numeral (str(float) never is)",
 ]
 EXPLANATION = ("theorems: decimal print/read identity for all integers; every string is read back from the literal the repaired "
                "exporters write (backslash escapes: C/C++/Rust, doubled quote: Fortran, escaped double-quoted word: Bash); the bracket "
                "machine inverts the nested-list printer for all trees; typed initialiser round trip for C/C++ and Rust for every "
-               "nested value of every kind; whole declaration lines of C/C++ (const/constexpr) and Rust read back as the expected "
-               "symbol for every parameter; Fortran reshape with order=[k..1] undoes the row-major element list for every rectangular "
+               "nested value of every kind; whole C, C++ and Rust files (guard/include frame, line splitting, const/constexpr/#define "
+               "and pub const lines) read back as the expected symbols for every parameter list and option; Fortran reshape with order=[k..1] undoes the row-major element list for every rectangular "
                "value of any rank (and the default order does not); type tables (regenerated from _parse_dtype and measured with the "
                "compilers) give same class/width/signedness except the listed lacking types; selection characterisation; rename "
                "non-injectivity; shaping")
